@@ -16,6 +16,8 @@ open IpcHub.Props.C01 (subseq countOf)
 theorem c04_source_facts :
     IpcHub.Gen.mediaFactsUnknown = [] ∧ IpcHub.Gen.maxQLen = 1000 ∧
     subseq ["c.recvQueue.Len", "set c.discarding", "set c.discarding", "c.recvQueue.Push"] IpcHub.Gen.progConsSend = true ∧
+    -- the decisions of send: only at a key-frame start, drop above the limit, resume below it, push unless dropping
+    IpcHub.Gen.condsConsSend = ["keyframe", "c.discarding && n < c.maxQLen", "!c.discarding && n > c.maxQLen", "!c.discarding"] ∧
     countOf "c.consumer.Consume" IpcHub.Gen.progCacheAndSend = 0 ∧ countOf "c.recvQueue.Pop" IpcHub.Gen.progCacheAndSend = 0 ∧
     countOf "c.consumer.Consume" IpcHub.Gen.progSendToAll = 0 ∧ countOf "c.consumer.Consume" IpcHub.Gen.progConsSend = 0 ∧
     countOf "c.recvQueue.Pop" IpcHub.Gen.progConsSend = 0 ∧
